@@ -275,7 +275,9 @@ theorem triggerEvents_acct (es : List TEvent) (t : Int) (s : Fw σ) :
   unfold triggerEvents
   rw [((walkSameAcct ρ).signalRound _).ofFw]
   unfold Acct.call
-  have h0 : Acct.ofFw (s.callStart t) = ({ (Acct.ofFw s).1 with now := t }, (Acct.ofFw s).2) := rfl
+  have h0 : Acct.ofFw (s.callStart t) = ({ (Acct.ofFw s).1 with now := t }, (Acct.ofFw s).2) := by
+    simp only [Acct.ofFw, Fw.callStart, List.map_map]
+    congr 1
   rw [← h0]
   generalize s.callStart t = s'
   induction es generalizing s' with
